@@ -113,25 +113,33 @@ def main(tier, replay=None):
             raise vlib.ToolError("pair liveness slice %s: the specification does not satisfy Terminates: %s" % (n, lr["errors"][:2]))
         live_states += lr["distinct"]
         os.remove(lr["out"])
-    extracted = {}
+    extracted, graphs = {}, {}
     for name in names:
         mc = res["MC_%s.cfg" % name]
         if not mc["completed"] or mc["errors"]:
             txt = open(mc["out"], errors="replace").read()
             sv = [l[:600] for l in txt.splitlines() if l.startswith('<<"SPECVIOL"')][:2]
             raise vlib.ToolError("pair slice %s: the specification violates its own properties: %s %s" % (name, mc["errors"][:2], sv))
-        extracted[name] = vlib.maximal_schedules(mc["out"])
+        graphs[name] = vlib.Graph()
+        extracted[name] = vlib.maximal_schedules(mc["out"], graph=graphs[name])
         os.remove(mc["out"])
     shares = vlib.water_fill({n: len(extracted[n][1]) for n in names}, limit)
+    # random walks through the explored state graph (histories other than the first one found to each state)
+    wshares = vlib.water_fill({n: 2 * extracted[n][0] for n in names}, 20000 if thorough else 4000)
     for name in names:
         total, lines, parent = extracted[name]
         ef = os.path.join(wd, "edges_%s.ndjson" % name)
         kept, covered = vlib.write_schedules(lines, parent, ef, limit=shares[name], rng_seed=rng.randrange(1 << 30))
+        wl = graphs[name].walks(wshares[name], random.Random(rng.randrange(1 << 30)))
+        with open(ef, "a") as f:
+            for l in wl:
+                f.write(l + "\n")
         states += res["MC_%s.cfg" % name]["distinct"]
         transitions += total
-        per_slice[name] = {"states": res["MC_%s.cfg" % name]["distinct"], "transitions": total, "replayed": covered, "schedules": kept, "maximal_schedules": len(lines)}
+        per_slice[name] = {"states": res["MC_%s.cfg" % name]["distinct"], "transitions": total, "replayed": covered, "schedules": kept,
+                           "maximal_schedules": len(lines), "graph_walks": len(wl)}
         edge_files.append(ef)
-    del extracted
+    del extracted, graphs
     # one harness process + one Trace_Pair run per slice (and one for the random workloads), side by side: every TLC
     # worker deserialises the whole trie it walks, so several small tries are much cheaper than one big one
     drive_n = "600" if thorough else "60"
